@@ -14,7 +14,7 @@ import (
 
 var ghostBuiltins = map[string]bool{
 	"requires": true, "ensures": true, "ensuresGoal": true, "assert": true, "assume": true, "imp": true, "iff": true, "old": true,
-	"forall": true, "exists": true, "forallIn": true, "existsIn": true, "modifiesTail": true, "modifiesElems": true, "modifiesPtr": true, "modifiesAll": true,
+	"forall": true, "exists": true, "forallIn": true, "existsIn": true, "modifiesTail": true, "modifiesElems": true, "modifiesPtr": true, "modifiesAll": true, "modifiesMap": true,
 	"freshSlice": true, "sameBase": true, "sameArray": true, "suffixOf": true, "viewOf": true, "offsetIn": true, "disjointFromTail": true, "bytesEq": true, "strBytesEq": true, "allocated": true, "unchangedElems": true,
 	"covers": true,
 }
@@ -22,7 +22,9 @@ var ghostBuiltins = map[string]bool{
 type modSpec struct {
 	kind  string // tail, elems, ptr, all
 	v     *Term
-	elemS *Sort // slice element sort / pointee sort
+	elemS *Sort // slice element sort / pointee sort / map key sort
+	valS  *Sort // map value sort
+	typ   types.Type // pointee type (ptr)
 }
 
 type contractRun struct {
@@ -366,6 +368,9 @@ func (c *VC) builtin(st *State, name string, call *ast.CallExpr) []*Term {
 				return []*Term{c.idxLit(at.Len())}
 			}
 		case *types.Map, *types.Chan:
+			if mt, ok := c.mapModelled(t); ok {
+				return []*Term{c.mapLen(st, mt, v)}
+			}
 			n := c.fresh("maplen", c.idxSort())
 			c.addFact(tTrue, mkAnd(c.cmp(token.GEQ, n, c.idxLit(0), it), c.inRange(n, it)))
 			return []*Term{n}
@@ -397,13 +402,16 @@ func (c *VC) builtin(st *State, name string, call *ast.CallExpr) []*Term {
 			for _, a := range call.Args[1:] {
 				c.eval(st, a)
 			}
+			if mt, ok := c.mapModelled(t); ok {
+				return []*Term{c.mapMake(st, mt)}
+			}
 			m := c.fresh("made", sortInt)
 			c.addFact(tTrue, mk(">", sortBool, m, intLit64(0)))
 			return []*Term{m}
 		}
 	case "new":
 		t := c.typeOf(call).Underlying().(*types.Pointer).Elem()
-		return []*Term{c.allocPtr(st, c.zero(t))}
+		return []*Term{c.allocObj(st, t, c.zero(t))}
 	case "panic":
 		for _, a := range call.Args {
 			c.eval(st, a)
@@ -426,6 +434,14 @@ func (c *VC) builtin(st *State, name string, call *ast.CallExpr) []*Term {
 		}
 		return []*Term{r}
 	case "delete", "clear", "print", "println":
+		if name == "delete" {
+			if mt, ok := c.mapModelled(c.typeOf(call.Args[0])); ok {
+				h := c.eval(st, call.Args[0])
+				k := c.coerce(st, c.eval(st, call.Args[1]), c.typeOf(call.Args[1]), mt.Key())
+				c.mapDelete(st, mt, h, k, call.Pos(), exprText(c.prog.fset, call))
+				return nil
+			}
+		}
 		for _, a := range call.Args {
 			c.eval(st, a)
 		}
@@ -642,8 +658,9 @@ func (c *VC) havocCall(st *State, fn *types.Func, args []*Term, call *ast.CallEx
 				_, h := c.sliceHeap(st, c.sortOf(u.Elem()))
 				uargs = append(uargs, c.sel(h, mkField(a, "sl_base")))
 			case *types.Pointer:
-				_, h := c.ptrHeap(st, c.sortOf(u.Elem()))
-				uargs = append(uargs, c.sel(h, a))
+				if c.sizeof(u.Elem()) <= 64 {
+					uargs = append(uargs, c.loadAt(st, a, u.Elem()))
+				}
 			}
 		}
 		for i, rt := range rts {
@@ -790,7 +807,7 @@ func resultObjs(fi *FuncInfo) []*types.Var {
 }
 
 func (c *VC) inlineCall(st *State, fi *FuncInfo, args []*Term, call *ast.CallExpr) []*Term {
-	if c.inlineDepth > 40 {
+	if c.inlineDepth > 90 {
 		c.unsupportedf(token.NoPos, "inline depth exceeded at %s", fi.Name)
 		var rs []*Term
 		for _, r := range resultObjs(fi) {
